@@ -5,7 +5,7 @@
    with no hypothesis left. *)
 From RX Require Import Base.Prelude Base.InvList Tables.Consts Model.Case Model.Op Model.Engine Model.Matcher
      Model.Compiler Model.Api Model.Run Proofs.EngineFacts Proofs.MatcherFacts Proofs.LeafFacts Proofs.LiteralFacts
-     Proofs.ScanFacts Proofs.AnalyzeFacts Proofs.AnalyzeTreeFacts Proofs.AnalyzeIterFacts.
+     Proofs.ScanFacts Proofs.AnalyzeFacts Proofs.AnalyzeTreeFacts Proofs.AnalyzeIterFacts Spec.Repl Proofs.ReplaceFacts.
 Transparent setg.
 
 Lemma setg0_eq l v : 1 <= length l -> setg l 0 v = Some v :: tl l.
@@ -238,5 +238,34 @@ Proof.
            (fun pos s0 s' Hp Hi E => literal_pcount pos s0 s' Hp Hi E)) with (fuel := fuel) (s := s); auto.
   intros s0 a b v Hpc _ _ _ _ Hv. unfold process_matching_substring in Hv. rewrite Hpc in Hv.
   injection Hv as <-. unfold vtext. cbn. apply app_nil_r.
+Qed.
+
+(* replace_all without q: the groups a match of the literal leaves can be sliced (there is group 0
+   only), so the replacement-expansion theorems apply with no hypothesis left *)
+Lemma literal_get_paren pos s s' : pos <= n -> lit_inv s -> matches prog input pos s = MTrue s' ->
+  forall g, exists o, get_paren input s' g = Ok o.
+Proof.
+  intros Hpos Hinv E g. pose proof (literal_matches_span pos s Hpos Hinv) as M. rewrite E in M.
+  destruct M as (k & _ & _ & Hocc & P1 & P2 & Pc & _).
+  unfold get_paren. rewrite Pc. destruct g as [|g]; cbn [Nat.ltb Nat.leb]; [|eexists; reflexivity].
+  rewrite P1, P2. unfold rslice. fold n.
+  unfold occ, occurs_at in Hocc. apply andb_true_iff in Hocc as [O1 _]. apply Nat.leb_le in O1. fold n in O1.
+  replace (Nat.ltb (k + length p) k) with false by (symmetry; apply Nat.ltb_ge; lia).
+  replace (Nat.ltb n (k + length p)) with false by (symmetry; apply Nat.ltb_ge; lia).
+  cbn [orb rbind]. eexists. reflexivity.
+Qed.
+
+Theorem literal_replace_valid repl its s0 : lit_inv s0 -> parse_repl 0 repl = PItems its ->
+  replace_loop (matches prog input) false 1 input repl (n + 2) 0 s0 [] true false
+  = Ok (rep_out (matches prog input) 0 input its (n + 2) 0 s0).
+Proof.
+  apply (replace_valid_on (matches prog input) 0 input repl lit_inv literal_good_step literal_get_paren).
+Qed.
+
+Theorem literal_replace_invalid repl s0 s' : lit_inv s0 -> parse_repl 0 repl = PInvalid -> 0 < n ->
+  matches prog input 0 s0 = MTrue s' ->
+  replace_loop (matches prog input) false 1 input repl (n + 2) 0 s0 [] true false = Err EInvalidRepl.
+Proof.
+  apply (replace_invalid_on (matches prog input) 0 input repl lit_inv literal_good_step literal_get_paren).
 Qed.
 End LA.
